@@ -64,6 +64,8 @@ class Atom:
         self.fn, self.arg, self.var, self.argw, self.name, self.args = fn, arg, var, argw, name, args
 
 
+ZETA2_F = tofrac(1.6449340668482264)  # special.zeta.zeta2 as written in the source
+
 TRUE_FN = {
     "log": lambda a: math.log(a),
     "sqrt": lambda a: math.sqrt(a),
@@ -264,6 +266,16 @@ class Ctx:
         if at.fn == "sqrt":
             self.atom_facts.append(v >= 0)
             self.atom_facts.append(v * v == at.arg)
+        elif at.fn == "li2":
+            # Euler's reflection formula between two dilogarithm atoms whose arguments add up to one (sound; the
+            # constant is the zeta2 float the code itself uses, read exactly): Li2(u) + Li2(1-u) = zeta2 - ln u ln(1-u)
+            if getattr(self, "li2_reflection", True):
+                for o in list(self.atoms.values()):
+                    if o.fn == "li2" and o is not at and o.arg is not None and at.argw + o.argw == 1:
+                        if self.proves_equal(at.arg + o.arg, z3.RealVal(1)):
+                            lu = sym_log(S(at.arg, at.argw))
+                            lw = sym_log(S(o.arg, o.argw))
+                            self.atom_facts.append(v + o.var == zval(ZETA2_F) - lu.t * lw.t)
         elif at.fn == "log":
             # sound a-priori facts: sign of log follows the position of arg w.r.t. 1,
             # and log u <= u - 1 (used only when a harness asks for facts)
@@ -1093,10 +1105,127 @@ class Env:
         return f"Env({s.v!r},|{s.m!r}|)"
 
 
+class C:
+    """complex number whose parts are proxies (S, Dual, Env) or plain numbers; only what the coefficient functions use:
+    complex literals times real logs, complex polylogarithms above their cut, and a final `.real`."""
+
+    __array_priority__ = 1002
+    __slots__ = ("re", "im")
+
+    def __init__(self, re, im):
+        self.re, self.im = re, im
+
+    @staticmethod
+    def lift(o):
+        if isinstance(o, C):
+            return o
+        if isinstance(o, complex):
+            return C(o.real, o.imag)
+        return C(o, 0)
+
+    @property
+    def real(self):
+        return self.re
+
+    @property
+    def imag(self):
+        return self.im
+
+    def __add__(s, o):
+        o = C.lift(o)
+        return C(s.re + o.re, s.im + o.im)
+
+    __radd__ = __add__
+
+    def __sub__(s, o):
+        o = C.lift(o)
+        return C(s.re - o.re, s.im - o.im)
+
+    def __rsub__(s, o):
+        o = C.lift(o)
+        return C(o.re - s.re, o.im - s.im)
+
+    def __mul__(s, o):
+        o = C.lift(o)
+        return C(s.re * o.re - s.im * o.im, s.re * o.im + s.im * o.re)
+
+    __rmul__ = __mul__
+
+    def __truediv__(s, o):
+        o = C.lift(o)
+        den = o.re * o.re + o.im * o.im
+        return C((s.re * o.re + s.im * o.im) / den, (s.im * o.re - s.re * o.im) / den)
+
+    def __rtruediv__(s, o):
+        return C.lift(o) / s
+
+    def __neg__(s):
+        return C(-s.re, -s.im)
+
+    def __pow__(s, n):
+        n = int(n)
+        r = C(1, 0)
+        for _ in range(abs(n)):
+            r = r * s
+        return r if n >= 0 else C(1, 0) / r
+
+    def __repr__(s):
+        return f"C({s.re!r}, {s.im!r})"
+
+
+def _intercept_complex(cls):
+    """let S/Dual/Env meet Python complex literals and C values"""
+    for name, cname in (("__add__", "__radd__"), ("__radd__", "__add__"), ("__sub__", "__rsub__"), ("__rsub__", "__sub__"),
+                        ("__mul__", "__rmul__"), ("__rmul__", "__mul__"), ("__truediv__", "__rtruediv__"), ("__rtruediv__", "__truediv__")):
+        orig = getattr(cls, name)
+
+        def wrapped(self, o, _orig=orig, _cname=cname):
+            if isinstance(o, (complex, C)):
+                return getattr(C.lift(o), _cname)(self)
+            return _orig(self, o)
+
+        setattr(cls, name, wrapped)
+
+
+for _cls in (S, Dual, Env):
+    _intercept_complex(_cls)
+
+PI2_3 = tofrac(math.pi ** 2 / 3)
+PI_F = tofrac(math.pi)
+
+
+def li2_real(x):
+    """Re Li2(x) for real x, as special.li2 returns it: above the cut Re Li2(x) = pi^2/3 - ln^2(x)/2 - Li2(1/x)"""
+    if bool(x > 1):
+        lg = x.log()
+        return PI2_3 - lg * lg / 2 - (1 / x).li2()
+    return x.li2()
+
+
+def li3(x):
+    """Li3 = S_{2,1}; complex above the cut (as special.nielsen returns it): Re = Li3(1/x) + pi^2/3 ln x - ln^3 x/6, Im = -pi/2 ln^2 x"""
+    if bool(x > 1):
+        lg = x.log()
+        return C(_li3_atom(1 / x) + PI2_3 * lg - lg * lg * lg / 6, -(PI_F / 2) * lg * lg)
+    return _li3_atom(x)
+
+
+def _li3_atom(x):
+    if isinstance(x, Dual):
+        v = _li3_atom(x.v)
+        return Dual(v, li2_real(x.v) / x.v * x.d)
+    if isinstance(x, Env):
+        return Env.lift(_li3_atom(x.v))
+    x = S.lift(x)
+    from yadism.coefficient_functions.special.nielsen import nielsen as _n
+
+    return cur().atom("li3", x, true_fn=lambda a: float(_n(2, 1, a).real))
+
+
 def li2(x):
-    """Stub for special.li2 / Li2."""
+    """Stub for special.li2 (real part of Li2, also above the cut)."""
     if isinstance(x, (Dual, Env, S)):
-        return x.li2()
+        return li2_real(x)
     return sym_li2(x)
 
 
